@@ -16,7 +16,9 @@
 package main
 
 import (
+	"encoding/json"
 	"fmt"
+	"os"
 	"reflect"
 	"sort"
 	"strconv"
@@ -463,7 +465,7 @@ func directProperty(h *history) string {
 func sequential(env *vh.Env, rep *vh.Report, rng *vh.Rng) {
 	nHist, maxOps, budget := 500, 300, 60
 	if env.Thorough {
-		nHist, maxOps, budget = 6000, 300, 600
+		nHist, maxOps, budget = 25000, 300, 1500
 	}
 	var hs []*history
 	var lines []string
@@ -550,6 +552,55 @@ func sequential(env *vh.Env, rep *vh.Report, rng *vh.Rng) {
 		}
 	}
 	rep.Sample(map[string]interface{}{"history": lines[0], "model": outs[0]})
+}
+
+// replaySequential re-runs the sequential histories stored in a replay file (`-replay`).
+func replaySequential(env *vh.Env, rep *vh.Report) bool {
+	b, err := os.ReadFile(env.Replay)
+	if err != nil {
+		vh.Die("cannot read replay: %v", err)
+	}
+	var r struct {
+		Cases []struct {
+			Line string `json:"line"`
+			Ops  []qop  `json:"ops"`
+		} `json:"cases"`
+	}
+	if json.Unmarshal(b, &r) != nil {
+		return false
+	}
+	n := 0
+	for _, c := range r.Cases {
+		f := strings.Fields(c.Line)
+		if len(c.Ops) == 0 || len(f) < 3 {
+			continue
+		}
+		h := &history{dbl: f[0] == "DQ", stuck: -1}
+		h.c1, _ = strconv.Atoi(f[1])
+		if h.dbl {
+			h.c2, _ = strconv.Atoi(f[2])
+		}
+		im := newImpl(h.dbl, h.c1, h.c2)
+		for i, o := range c.Ops {
+			res, sz, out := im.apply(o)
+			h.ops = append(h.ops, o)
+			if !out.OK() {
+				h.got = append(h.got, out.String())
+				h.stuck = i
+				break
+			}
+			h.got = append(h.got, res)
+			h.sizes = append(h.sizes, sz)
+		}
+		n++
+		rep.Case(c.Line, true)
+		if h.stuck >= 0 {
+			rep.Fail("property", qname(h.dbl)+"."+opName(h.ops[h.stuck].Kind)+":"+h.got[h.stuck], "replayed history: an operation did not return", c.Line)
+		} else if why := directProperty(h); why != "" {
+			rep.Fail("property", qname(h.dbl)+":"+classify(why), "replayed history violates the property on the implementation: "+why, map[string]interface{}{"line": c.Line, "ops": c.Ops})
+		}
+	}
+	return n > 0
 }
 
 func qname(dbl bool) string {
@@ -748,7 +799,7 @@ func concurrentRun(cfg concCfg) (fail string, detail map[string]interface{}) {
 func concurrent(env *vh.Env, rep *vh.Report, rng *vh.Rng) {
 	rounds := 40
 	if env.Thorough {
-		rounds = 400
+		rounds = 1500
 	}
 	type res struct {
 		cfg    concCfg
@@ -764,7 +815,7 @@ func concurrent(env *vh.Env, rep *vh.Report, rng *vh.Rng) {
 		}
 	}
 	out := make([]res, rounds)
-	sem := make(chan struct{}, 4)
+	sem := make(chan struct{}, 6)
 	var wg sync.WaitGroup
 	var stranded int32
 	for i := range cfgs {
@@ -912,6 +963,11 @@ func main() {
 	rep.Rule = "sequential: one case per history (≤ 300 ops), non-trivial when at least one element is accepted, refused or evicted; " +
 		"concurrent: one case per (producers × consumers, capacity, put mode) run, non-trivial when ≥ 2 goroutines share the queue; " +
 		"timed: one case per GetTimeout call on an empty queue, non-trivial when the timeout is positive"
+	if env.Replay != "" && replaySequential(env, rep) {
+		knownFindings(rep)
+		rep.Write(env.Out)
+		return
+	}
 	sequential(env, rep, rng.Fork())
 	concurrent(env, rep, rng.Fork())
 	timed(env, rep)
